@@ -86,3 +86,23 @@ func init() {
 			Old: "const startDetectingCyclesAfter = 1000", New: "const startDetectingCyclesAfter = 100000", Rule: "CYCLE-1"},
 	)
 }
+
+func init() {
+	addMutants(
+		// ---- C01/C20/C06: DEPTH-1, KIND-1
+		Mutant{ID: "depth1-pushObject-gt", Props: []string{"C20", "C01", "C06"}, File: "jsontext/state.go", Func: "stateMachine.pushObject",
+			Old: "case len(m.Stack) == maxNestingDepth:", New: "case len(m.Stack) > maxNestingDepth:", Rule: "DEPTH-1"},
+		Mutant{ID: "depth1-consumeArray-off-by-one", Props: []string{"C20", "C01"}, File: "jsontext/decode.go", Func: "decoderState.consumeArray",
+			Old: "depth == maxNestingDepth+1", New: "depth == maxNestingDepth", Rule: "DEPTH-1"},
+		Mutant{ID: "depth1-reformatArray-no-increment", Props: []string{"C20", "C12"}, File: "jsontext/encode.go", Func: "encoderState.reformatArray",
+			Old: "\tvar err error\n\tdepth++\n", New: "\tvar err error\n", Rule: "DEPTH-1"},
+		Mutant{ID: "depth1-readvalue-passes-stack-len", Props: []string{"C20", "C01"}, File: "jsontext/decode.go", Func: "decoderState.ReadValue",
+			Old: "d.consumeValue(flags, pos, d.Tokens.Depth())", New: "d.consumeValue(flags, pos, len(d.Tokens.Stack))", Rule: "DEPTH-1"},
+		Mutant{ID: "kind1-consumeValue-drops-array", Props: []string{"C01"}, File: "jsontext/decode.go", Func: "decoderState.consumeValue",
+			Old: "\t\tcase '[':\n\t\t\treturn d.consumeArray(flags, pos, depth)\n", New: "", Rule: "KIND-1"},
+		Mutant{ID: "kind1-normKind-drops-minus", Props: []string{"C01"}, File: "jsontext/token.go",
+			Old: "\t'-': '0',\n", New: "", Rule: "KIND-1"},
+		Mutant{ID: "kind1-writetoken-default-accepts", Props: []string{"C01", "C06"}, File: "jsontext/encode.go", Func: "encoderState.WriteToken",
+			Old: "\tdefault:\n\t\terr = errInvalidToken\n", New: "\tdefault:\n", Rule: "KIND-1"},
+	)
+}
